@@ -330,6 +330,62 @@ Section Lexeme.
   Qed.
 End Lexeme.
 
+(* ---------- block comments ---------- *)
+Lemma span_inside y : forall r r', span (y ++ r) < List.length y -> span (y ++ r') = span (y ++ r).
+Proof. induction y as [|a y IH]; intros r r' H; cbn in *; [lia|]. destruct (is_sep a); [reflexivity|]. f_equal. apply IH. lia. Qed.
+Lemma scan_shorter0 fuel s rest : scan fuel s = Closed rest -> List.length rest <= List.length s.
+Proof. intro H. destruct (scan_ends_behind_terminator fuel s rest H) as (n & -> & _). rewrite skipn_length. lia. Qed.
+Lemma skipn_app_le' {A} (x v : list A) n : n <= List.length x -> skipn n (x ++ v) = skipn n x ++ v.
+Proof. intro H. rewrite skipn_app. replace (n - List.length x) with 0 by lia. reflexivity. Qed.
+
+(* a comment that ends inside the text before the inserted blank ends at the same place *)
+Lemma scan_stable c x v : is_blank c = true -> x <> [] -> forall f y,
+  scan f (y ++ x ++ v) = Closed (x ++ v) -> scan (S f) (y ++ x ++ c :: v) = Closed (x ++ c :: v).
+Proof.
+  intros Hc Hx. assert (blank_free expect_mark = true) as Be by reflexivity. assert (blank_free close_mark = true) as Bc by reflexivity.
+  induction f as [|f IH]; intros y H; [discriminate|].
+  destruct (y ++ x ++ v) as [|a0 s0] eqn:Es; [discriminate|]. rewrite <- Es in H.
+  assert (0 < List.length x) as Hxl by (destruct x; [contradiction | cbn; lia]).
+  assert (Hy : forall k, List.length (x ++ v) <= List.length (skipn k (y ++ x ++ v)) -> k <= List.length y).
+  { intros k Hk. rewrite skipn_length in Hk. rewrite !app_length in Hk. lia. }
+  change (scan (S f) (y ++ x ++ v)) with
+    (match y ++ x ++ v with [] => Unclosed | _ :: r => if starts expect_mark (y ++ x ++ v) then scan f (skipn (7 + span (skipn 7 (y ++ x ++ v))) (y ++ x ++ v))
+                                                   else if starts close_mark (y ++ x ++ v) then Closed (skipn 2 (y ++ x ++ v)) else scan f r end) in H.
+  assert (Es' : exists a1 s1, y ++ x ++ c :: v = a1 :: s1) by (destruct y as [|a y]; [destruct x as [|a x]; [contradiction | exists a, (x ++ c :: v); reflexivity] | exists a, (y ++ x ++ c :: v); reflexivity]).
+  destruct Es' as (a1 & s1 & Es').
+  change (scan (S (S f)) (y ++ x ++ c :: v)) with
+    (match y ++ x ++ c :: v with [] => Unclosed | _ :: r => if starts expect_mark (y ++ x ++ c :: v) then scan (S f) (skipn (7 + span (skipn 7 (y ++ x ++ c :: v))) (y ++ x ++ c :: v))
+                                                        else if starts close_mark (y ++ x ++ c :: v) then Closed (skipn 2 (y ++ x ++ c :: v)) else scan (S f) r end).
+  rewrite Es in H. rewrite Es'. rewrite <- Es in H. rewrite <- Es'.
+  replace (y ++ x ++ c :: v) with ((y ++ x) ++ c :: v) by (now rewrite <- app_assoc).
+  replace (y ++ x ++ v) with ((y ++ x) ++ v) in * by (now rewrite <- app_assoc).
+  destruct (starts expect_mark ((y ++ x) ++ v)) eqn:He.
+  - (* an EXPECT: word: it ends inside y *)
+    pose proof (scan_shorter0 _ _ _ H) as Hl. apply Hy in Hl.
+    set (k := 7 + span (skipn 7 ((y ++ x) ++ v))) in *.
+    assert (7 <= List.length y) as H7 by lia.
+    rewrite (starts_stable c Hc expect_mark Be (y ++ x) v ltac:(intros _; rewrite app_length; cbn; lia)), He.
+    assert (span (skipn 7 ((y ++ x) ++ c :: v)) = span (skipn 7 ((y ++ x) ++ v))) as Esp.
+    { rewrite !(skipn_app_le' (y ++ x) _ 7) by (rewrite app_length; lia). apply span_inside.
+      rewrite <- (skipn_app_le' (y ++ x) v 7) by (rewrite app_length; lia). rewrite skipn_length, app_length.
+      assert (0 < List.length x) by (destruct x; [contradiction | cbn; lia]). fold k in Hl. unfold k in Hl. lia. }
+    rewrite Esp. fold k.
+    rewrite <- !app_assoc in *. rewrite (skipn_app_le' y (x ++ c :: v) k Hl). rewrite (skipn_app_le' y (x ++ v) k Hl) in H. apply IH. exact H.
+  - rewrite (starts_stable c Hc expect_mark Be (y ++ x) v ltac:(intro E; rewrite E in He; discriminate)), He.
+    destruct (starts close_mark ((y ++ x) ++ v)) eqn:Hcl.
+    + (* the terminator: y is exactly the terminator *)
+      injection H as H. change (skipn 2 ((y ++ x) ++ v) = x ++ v) in H. assert (List.length y = 2) as Hl2.
+      { apply (f_equal (@List.length _)) in H. rewrite skipn_length in H. rewrite !app_length in H.
+        pose proof (starts_length close_mark _ Hcl) as H2. rewrite !app_length in H2. cbn [List.length close_mark] in H2. lia. }
+      rewrite (starts_stable c Hc close_mark Bc (y ++ x) v ltac:(intros _; rewrite app_length; cbn; lia)), Hcl.
+      rewrite <- !app_assoc. f_equal. destruct y as [|p [|q [|? ?]]]; try (cbn in Hl2; lia). reflexivity.
+    + rewrite (starts_stable c Hc close_mark Bc (y ++ x) v ltac:(intro E; rewrite E in Hcl; discriminate)), Hcl.
+      destruct y as [|a y].
+      * (* the comment cannot end before it has consumed anything *)
+        cbn [app] in *. rewrite Es in H. pose proof (scan_shorter0 _ _ _ H) as Hl. rewrite <- Es in Hl. cbn [app] in Hl. rewrite Es in Hl. cbn [List.length] in Hl. lia.
+      * cbn [app] in Es, Es'. injection Es as <- <-. injection Es' as <- <-. rewrite <- !app_assoc in *. apply IH. exact H.
+Qed.
+
 (* ---------- the token stream ---------- *)
 Section Stream.
   Variable literals : list (string * string).
@@ -367,11 +423,13 @@ Section Stream.
   Variable c : ascii.
   Hypothesis Hc : is_blank c = true.
 
-  (* the end of x is the end of a token of the text x ++ v (reached by the scanner through tokens and skipped lexemes; block comments before it are left out) *)
+  (* the end of x is the end of a token of the text x ++ v (reached by the scanner through tokens, skipped lexemes and closed block comments) *)
   Inductive token_end : text -> text -> Prop :=
     | TE_here x v k : lex1 literals (x ++ v) = Tok k (List.length x) -> k <> KLf -> k <> KCrLf -> (forall a, x = [a] -> (code a =? 34) = false) -> token_end x v
     | TE_tok w x v k : lex1 literals ((w ++ x) ++ v) = Tok k (List.length w) -> x <> [] -> token_end x v -> token_end (w ++ x) v
-    | TE_skip w x v sk : lex1 literals ((w ++ x) ++ v) = Skip sk (List.length w) -> x <> [] -> token_end x v -> token_end (w ++ x) v.
+    | TE_skip w x v sk : lex1 literals ((w ++ x) ++ v) = Skip sk (List.length w) -> x <> [] -> token_end x v -> token_end (w ++ x) v
+    | TE_comment w x v : lex1 literals ((w ++ x) ++ v) = Comment -> scan (List.length ((w ++ x) ++ v)) (skipn 2 ((w ++ x) ++ v)) = Closed (x ++ v) ->
+                         x <> [] -> token_end x v -> token_end (w ++ x) v.
 
   Lemma lex_leading_blank f v : List.length v <= f -> lex literals (S f) (c :: v) = lex literals f v.
   Proof.
@@ -384,7 +442,7 @@ Section Stream.
   (* a blank written behind a token of the text leaves the token stream as it is *)
   Theorem lex_blank_at_token_end x v : token_end x v -> forall f, List.length (x ++ v) <= f -> lex literals (S f) (x ++ c :: v) = lex literals f (x ++ v).
   Proof.
-    induction 1 as [x v k H Hlf Hcr Hq | w x v k H Hx Hte IH | w x v sk H Hx Hte IH]; intros f Hf.
+    induction 1 as [x v k H Hlf Hcr Hq | w x v k H Hx Hte IH | w x v sk H Hx Hte IH | w x v H Hsc Hx Hte IH]; intros f Hf.
     - pose proof (lex1_blank_behind_token literals Hbf c Hc x v k H Hlf Hcr Hq) as H'.
       assert (x <> []) as Hxn. { intros ->. cbn [app List.length] in H. destruct v as [|d v]; [discriminate|]. pose proof (lex1_progress literals d v) as Hp. rewrite H in Hp. cbn in Hp. lia. }
       destruct f as [|f]; [destruct x; [contradiction | cbn in Hf; lia]|].
@@ -408,5 +466,85 @@ Section Stream.
       specialize (IH f Hf').
       rewrite (lex_step (S f) ((w ++ x) ++ c :: v)), (lex_step f ((w ++ x) ++ v)).
       rewrite H, H'. rewrite <- !app_assoc. rewrite !skipn_app_exact. exact IH.
+    - pose proof (scan_shorter0 _ _ _ Hsc) as Hl. rewrite skipn_length in Hl. rewrite !app_length in Hl.
+      assert (0 < List.length x) as Hxl by (destruct x; [contradiction | cbn; lia]).
+      assert (2 <= List.length w) as Hw2 by lia.
+      pose proof (lex1_blank_further_back literals Hbf c Hc (w ++ x) v ltac:(rewrite H; cbn [lexeme_len]; rewrite app_length; lia)) as H'. rewrite H in H'.
+      destruct f as [|f]; [rewrite !app_length in Hf; lia|].
+      assert (List.length (x ++ v) <= f) as Hf' by (rewrite !app_length in *; lia).
+      specialize (IH f Hf').
+      rewrite (lex_step (S f) ((w ++ x) ++ c :: v)), (lex_step f ((w ++ x) ++ v)). rewrite H, H', Hsc.
+      replace (List.length ((w ++ x) ++ c :: v)) with (S (List.length ((w ++ x) ++ v))) by (rewrite !app_length; cbn; lia).
+      rewrite <- !app_assoc in *. rewrite (skipn_app_le' w (x ++ c :: v) 2 Hw2). rewrite (skipn_app_le' w (x ++ v) 2 Hw2) in Hsc.
+      rewrite (scan_stable c x v Hc Hx _ _ Hsc). exact IH.
+  Qed.
+
+  (* ---- the hypothesis computed: the ends of the tokens of a text ---- *)
+  Definition sturdy (k : kind) (n : nat) (s : text) : bool :=
+    match k with KLf | KCrLf => false | _ => true end && (n <=? List.length s) && negb ((n =? 1) && match s with a :: _ => code a =? 34 | [] => false end).
+  Fixpoint ends (fuel : nat) (s : text) : list nat :=
+    match fuel with O => [] | S f =>
+    match lex1 literals s with
+    | Eof => []
+    | Tok k n => (if sturdy k n s then [n] else []) ++ (if (0 <? n) && (n <=? List.length s) then map (Nat.add n) (ends f (skipn n s)) else [])
+    | Skip _ n => if (0 <? n) && (n <=? List.length s) then map (Nat.add n) (ends f (skipn n s)) else []
+    | Comment => match scan (List.length s) (skipn 2 s) with
+                 | Closed rest => if List.length rest <? List.length s then map (Nat.add (List.length s - List.length rest)) (ends f rest) else []
+                 | Unclosed => [] end
+    end end.
+
+  Lemma token_end_nonempty x v : token_end x v -> x <> [].
+  Proof.
+    induction 1 as [x v k H _ _ _ | w x v k H Hx _ _ | w x v sk H Hx _ _ | w x v H _ Hx _ _]; try (intro E; apply app_eq_nil in E as [_ E]; contradiction).
+    intros ->. cbn [app List.length] in H. destruct v as [|d v]; [discriminate|]. pose proof (lex1_progress literals d v) as Hp. rewrite H in Hp. cbn in Hp. lia.
+  Qed.
+  Lemma firstn_add {A} (l : list A) : forall n m, firstn (n + m) l = firstn n l ++ firstn m (skipn n l).
+  Proof. induction l as [|a l IH]; intros [|n] m; cbn; try reflexivity; [now rewrite firstn_nil | f_equal; apply IH]. Qed.
+  Lemma skipn_add {A} (l : list A) : forall n m, skipn (n + m) l = skipn m (skipn n l).
+  Proof. induction l as [|a l IH]; intros [|n] m; cbn; try reflexivity; [now rewrite skipn_nil | apply IH]. Qed.
+
+  Theorem ends_are_token_ends : forall fuel s p, In p (ends fuel s) -> token_end (firstn p s) (skipn p s).
+  Proof.
+    induction fuel as [|f IH]; intros s p Hin; [destruct Hin|]. cbn [ends] in Hin.
+    destruct (lex1 literals s) as [k n|sk n| |] eqn:El; [| | |destruct Hin].
+    - apply in_app_or in Hin as [Hin|Hin].
+      + destruct (sturdy k n s) eqn:Es; [|destruct Hin]. destruct Hin as [<-|[]]. unfold sturdy in Es.
+        apply andb_prop in Es as [Es Hq]. apply andb_prop in Es as [Hk Hn]. apply Nat.leb_le in Hn.
+        apply (TE_here (firstn n s) (skipn n s) k).
+        * rewrite firstn_skipn, firstn_length_le by exact Hn. exact El.
+        * intros ->. discriminate.
+        * intros ->. discriminate.
+        * intros a Ea. apply negb_true_iff in Hq. assert (n = 1) as -> by (apply (f_equal (@List.length _)) in Ea; rewrite firstn_length_le in Ea by exact Hn; exact Ea).
+          destruct s as [|b s]; [discriminate|]. cbn in Ea. injection Ea as <-. cbn in Hq. exact Hq.
+      + destruct ((0 <? n) && (n <=? List.length s)) eqn:Eg; [|destruct Hin]. apply andb_prop in Eg as [Hpos Hn]. apply Nat.ltb_lt in Hpos. apply Nat.leb_le in Hn.
+        apply in_map_iff in Hin as (q & <- & Hq). specialize (IH _ _ Hq). rewrite firstn_add, skipn_add.
+        apply (TE_tok (firstn n s) (firstn q (skipn n s)) (skipn q (skipn n s)) k); [|exact (token_end_nonempty _ _ IH) | exact IH].
+        rewrite <- app_assoc, firstn_skipn, firstn_skipn, firstn_length_le by exact Hn. exact El.
+    - destruct ((0 <? n) && (n <=? List.length s)) eqn:Eg; [|destruct Hin]. apply andb_prop in Eg as [Hpos Hn]. apply Nat.ltb_lt in Hpos. apply Nat.leb_le in Hn.
+      apply in_map_iff in Hin as (q & <- & Hq). specialize (IH _ _ Hq). rewrite firstn_add, skipn_add.
+      apply (TE_skip (firstn n s) (firstn q (skipn n s)) (skipn q (skipn n s)) sk); [|exact (token_end_nonempty _ _ IH) | exact IH].
+      rewrite <- app_assoc, firstn_skipn, firstn_skipn, firstn_length_le by exact Hn. exact El.
+    - destruct (scan (List.length s) (skipn 2 s)) as [rest|] eqn:Esc; [|destruct Hin].
+      destruct (Nat.ltb_spec (List.length rest) (List.length s)) as [Hlt|]; [|destruct Hin].
+      apply in_map_iff in Hin as (q & <- & Hq). specialize (IH _ _ Hq).
+      (* the comment ends at a suffix of the text *)
+      destruct (scan_ends_behind_terminator _ _ _ Esc) as (m & Er & _). rewrite skipn_skipn' in Er.
+      set (d := List.length s - List.length rest).
+      assert (rest = skipn d s) as Erd.
+      { assert (List.length rest = List.length s - (2 + (m + 2))) as Hlr by (rewrite Er at 1; apply skipn_length).
+        destruct (Nat.le_gt_cases (2 + (m + 2)) (List.length s)) as [Hle|Hgt].
+        - replace d with (2 + (m + 2)) by (unfold d; lia). exact Er.
+        - assert (rest = []) as -> by (destruct rest; [reflexivity | cbn in Hlr; lia]). unfold d. cbn [List.length]. rewrite Nat.sub_0_r. symmetry. apply skipn_all. }
+      rewrite firstn_add, skipn_add. rewrite <- Erd.
+      apply (TE_comment (firstn d s) (firstn q rest) (skipn q rest)); [| |exact (token_end_nonempty _ _ IH) | exact IH].
+      + rewrite <- app_assoc, firstn_skipn. assert (firstn d s ++ rest = s) as -> by (rewrite Erd; apply firstn_skipn). exact El.
+      + rewrite <- app_assoc, firstn_skipn. assert (firstn d s ++ rest = s) as -> by (rewrite Erd; apply firstn_skipn). exact Esc.
+  Qed.
+  (* for every text and every end of a token in it, computed by the scanner itself *)
+  Corollary lex_blank_at_any_token_end s p : In p (ends (List.length s) s) ->
+    lex literals (S (List.length s)) (firstn p s ++ c :: skipn p s) = lex literals (List.length s) s.
+  Proof.
+    intro Hin. pose proof (ends_are_token_ends _ _ _ Hin) as Hte.
+    rewrite (lex_blank_at_token_end _ _ Hte (List.length s)); rewrite firstn_skipn; [reflexivity | lia].
   Qed.
 End Stream.
